@@ -166,7 +166,7 @@ def gen_all(ctx):
     # the BW keyword with NFFT in {None, N, > N} (the diagonal is compared with multi_taper_psd called with
     # identical keywords); adaptive=True with 1-2 usable tapers
     for _ in range(ctx.scale(5, 30)):
-        scs.append(S.force_bw_nfft(rng, S.gen_scenario(rng, "multi_taper_csd", nmax=16 if q else 32, max_ch=2 if q else 4)))
+        scs.append(S.force_bw_nfft(rng, S.gen_scenario(rng, "multi_taper_csd", nmax=16 if q else 32, max_ch=2 if q else 4), idx=_))
     for _ in range(ctx.scale(2, 12)):
         scs.append(S.force_few_tapers(rng, S.gen_scenario(rng, "multi_taper_csd", nmax=16 if q else 32, max_ch=2 if q else 4)))
     # the NFFT-vs-N parity matrix (N even / odd x NFFT in {None, N, N+1, N+2, 2N, 2N+1})
@@ -175,11 +175,14 @@ def gen_all(ctx):
         scs += S.gen_parity_matrix(rng, est, ne if est.startswith("multi") else ne - 2,
                                    no if est.startswith("multi") else no - 2, M=2, per_cell=1 if q else 2)
     # Fortran-ordered / strided / transposed-view inputs with two or more leading dimensions > 1
-    for _ in range(ctx.scale(6, 40)):
-        est = rng.choice(["multi_taper_csd", "multi_taper_csd", "periodogram_csd"])
-        scs.append(S.gen_scenario(rng, est, nmax=(10 if est == "multi_taper_csd" else 16) if q else 24,
-                                  lead=rng.choice([[2, 2], [2, 3], [3, 2]]) if q else rng.choice([[2, 2], [2, 3], [3, 2], [2, 1, 3]]),
-                                  layout=rng.choice(S.LAYOUTS)))
+    plan = [("multi_taper_csd", "F", [2, 2]), ("multi_taper_csd", "F", [2, 3]), ("multi_taper_csd", "transposed", [3, 2]),
+            ("multi_taper_csd", "strided0", [2, 2]), ("periodogram_csd", "F", [2, 3]), ("periodogram_csd", "transposed", [2, 2]),
+            ("periodogram_csd", "strided", [3, 2]), ("multi_taper_csd", "strided", [2, 3])]
+    for i in range(ctx.scale(6, 40)):
+        est, lay, lead = plan[i % len(plan)]
+        if not q and i >= len(plan):
+            lead = rng.choice([[2, 2], [2, 3], [3, 2], [2, 1, 3]])
+        scs.append(S.gen_scenario(rng, est, nmax=(10 if est == "multi_taper_csd" else 16) if q else 24, lead=lead, layout=lay))
     # option-sibling sequences
     for _ in range(ctx.scale(2, 12)):
         scs += S.gen_siblings(rng, "multi_taper_csd", nmax=14 if q else 32, max_ch=2 if q else 3, opt="low_bias")
